@@ -274,6 +274,19 @@ def check(facts, rep, tier, cfg):
     rep.rule("C05.S1", "S1: every message taken off the outbound queue is handed to the WebSocket sink by the send loop (= C02.R2): the frames this property relies on are not dropped, deduplicated or reordered on the way out")
     import_outbound_queue_rule(facts, rep, tier, cfg, "C05.S1")
     import_constructor_rule(facts, rep, "C05.S9", ['new_finish', 'new_push', 'new_push_owned', 'new_push_vectored'])
+    # ---- R10 end-of-stream through the bridge (= C13.R3): the far side is shut down only after the data, and the shutdown is completed
+    rep.rule("C05.R10", "end-of-stream travels through the stream-to-socket bridge intact (= C13.R3): a direction that saw EOF stays in its "
+                        "shutting-down state until the other side's shutdown has completed, and only then counts as done - the bytes the peer "
+                        "wrote before its Finish are flushed to the local side before the bridge resolves")
+    import rules_c13
+    sub13 = type(rep)(rep.prop, rep.tier, rep.config)
+    bb13 = rules_c13.bridge_bodies(crate)
+    if bb13:            # the bridge is compiled with the std / tokio feature set only
+        rules_c13.check_r3(facts, sub13, crate, bb13)
+    for i in sub13.instances:
+        rep.ok("C05.R10", i["key"], i["where"], i["detail"], nontrivial=False)
+    for v in sub13.violations:
+        rep.bad("C05.R10", v["key"].split("/", 1)[1], v["where"], v["msg"])
     rep.rule("C05.S7", "who-may: the functions that touch the critical resources behind this property are those of the reference tree (flow table, closed flag, per-stream / datagram / outbound queues, last-pong timestamp, client id maps, shared TLS identity)")
     import whomay
     whomay.check(facts, rep, "C05.S7", "C05")
